@@ -137,6 +137,8 @@ def parse_content_disposition(
         key, value = item.split("=", 1)
         key = key.lower().strip()
         value = value.lstrip()
+        # Only a file name loses the client-side directory in front of it.
+        strip = "\\/" if key.partition("*")[0] == "filename" else ""
 
         if key in params:
             warnings.warn(BadContentDispositionHeader(header))
@@ -162,7 +164,7 @@ def parse_content_disposition(
                 continue
 
             try:
-                value = unquote(value, encoding, "strict").lstrip("\\/")
+                value = unquote(value, encoding, "strict").lstrip(strip)
             except (builtins.LookupError, UnicodeDecodeError):
                 # The charset is attacker-controlled here; an unknown name
                 # raises the builtin LookupError (the bare name is shadowed in
@@ -175,7 +177,7 @@ def parse_content_disposition(
             rstripped = value.rstrip()
             if is_quoted(rstripped) and not (parts and is_unclosed(rstripped)):
                 failed = False
-                value = unescape(rstripped[1:-1].lstrip("\\/"))
+                value = unescape(rstripped[1:-1].lstrip(strip))
             elif is_token(value):
                 failed = False
             elif parts:
@@ -188,7 +190,7 @@ def parse_content_disposition(
                     _value = f"{_value};{parts.pop(0)}"
                 _value = _value.rstrip()
                 if is_quoted(_value):
-                    value = unescape(_value[1:-1].lstrip("\\/"))
+                    value = unescape(_value[1:-1].lstrip(strip))
                     failed = False
 
             if failed:
@@ -204,6 +206,7 @@ def content_disposition_filename(
     params: Mapping[str, str], name: str = "filename"
 ) -> str | None:
     name_suf = "%s*" % name
+    strip = "\\/" if name == "filename" else ""
     if not params:
         return None
     elif name_suf in params:
@@ -230,14 +233,14 @@ def content_disposition_filename(
             encoding, _, value = value.split("'", 2)
             encoding = encoding or "utf-8"
             try:
-                return unquote(value, encoding, "strict").lstrip("\\/")
+                return unquote(value, encoding, "strict").lstrip(strip)
             except (builtins.LookupError, UnicodeDecodeError):
                 # Both the charset name and the octets are attacker-controlled
                 # here; an unknown encoding raises the builtin LookupError
                 # (shadowed in this module by payload.LookupError) and
                 # undecodable bytes raise UnicodeDecodeError.
                 return None
-        return value.lstrip("\\/")
+        return value.lstrip(strip)
 
 
 class MultipartResponseWrapper:
